@@ -56,6 +56,13 @@ pub struct K17 {
     /// `RUST_LOG` of the client (None = unset)
     #[serde(default)]
     pub rust_log: Option<String>,
+    /// errno of the connects that fail (cycled; 0 or empty = refused)
+    #[serde(default)]
+    pub connect_errnos: Vec<i32>,
+    /// the (usable) airports file is deleted / garbled / cut short while the server is away
+    /// (at the first connect attempt after the drop)
+    #[serde(default)]
+    pub airports_spoiled: Option<String>,
 }
 
 /// kinds of `--airports` arguments; the first three are files radar can use
@@ -66,7 +73,7 @@ fn airports_is_usable(kind: &str) -> bool {
 }
 
 /// writes the file the scenario names into the child's working directory; returns the argument
-fn prepare_airports(kind: &str, rx: (f64, f64)) -> String {
+pub fn prepare_airports(kind: &str, rx: (f64, f64)) -> String {
     let dir = super::pty::workdir();
     let path = dir.join("airports.csv");
     let _ = std::fs::remove_file(&path);
@@ -175,7 +182,7 @@ pub const INVALID_CLI: [&[&str]; 20] = [
 pub fn generate(rng: &mut Rng, fault_free: bool) -> K17 {
     if !fault_free && rng.chance(0.08) {
         let a = *rng.pick(&INVALID_CLI);
-        return K17 { args: vec![], cols: 80, rows: 24, refused_first: 0, lines: vec![], events: vec![], quit_at_us: 100_000, quit_ctrl_c: false, proc_delay_us: vec![], reconnect_at_us: None, invalid_cli: Some(a.iter().map(|s| s.to_string()).collect()), rx: (35.0, -80.0), sweep: 0, compass: 0, ev_delay_us: vec![], gpsd: None, airports: None, rust_log: None };
+        return K17 { args: vec![], cols: 80, rows: 24, refused_first: 0, lines: vec![], events: vec![], quit_at_us: 100_000, quit_ctrl_c: false, proc_delay_us: vec![], reconnect_at_us: None, invalid_cli: Some(a.iter().map(|s| s.to_string()).collect()), rx: (35.0, -80.0), sweep: 0, compass: 0, ev_delay_us: vec![], gpsd: None, airports: None, rust_log: None, connect_errnos: vec![], airports_spoiled: None };
     }
     let (cols, rows) = if fault_free {
         *rng.pick(&[(80u16, 24u16), (120, 40)])
@@ -348,14 +355,19 @@ pub fn generate(rng: &mut Rng, fault_free: bool) -> K17 {
     } else {
         None
     };
-    let airports = if !fault_free && rng.chance(0.1) {
+    let airports = if !fault_free && rng.chance(0.14) {
         let kind = *rng.pick(&AIRPORT_KINDS);
         let tz = if rng.chance(0.4) { Some((*rng.pick(&["America/New_York", "America/Chicago,Europe/Amsterdam", "Nowhere/Else", "", ","])).to_string()) } else { None };
         Some((kind.to_string(), tz))
     } else {
         None
     };
+    if airports.as_ref().map(|(k, _)| k == "valid").unwrap_or(false) && rng.chance(0.6) && !args.iter().any(|a| a == "--retry-tcp") {
+        // the file may change while the server is away: make sure there is a reconnect to see it
+        args.push("--retry-tcp".into());
+    }
     let rust_log = if !fault_free && rng.chance(0.3) { Some((*rng.pick(&["trace", "debug", "info", "rsadsb_common=trace", "radar=trace,adsb_deku=debug", "warn", ""])).to_string()) } else { None };
+    let connect_errnos: Vec<i32> = if !fault_free && rng.chance(0.3) { (0..3).map(|_| *rng.pick(&[0, 0, 101, 113, 100, 104, 103, 4, 13, 99])).collect() } else { vec![] };
     // a session left alone: nothing from the operator and nothing new from the server for one to
     // five minutes of simulated time (every timer the client may own fires in that time)
     let long_quiet = !fault_free && rng.chance(0.012);
@@ -370,6 +382,10 @@ pub fn generate(rng: &mut Rng, fault_free: bool) -> K17 {
     let refused_first = if !fault_free && rng.chance(0.2) { 1 + rng.below(8) as u32 } else { 0 };
     let proc_delay_us = if !fault_free && rng.chance(0.2) { (0..6).map(|_| *rng.pick(&[0u64, 0, 30_000, 200_000])).collect() } else { vec![] };
     let reconnect_at_us = if !fault_free && args.iter().any(|a| a == "--retry-tcp") && rng.chance(0.6) { Some(100_000 + rng.below(duration_us)) } else { None };
+    let airports_valid = airports.as_ref().map(|(k, _)| k == "valid").unwrap_or(false);
+    // with a usable airports file and --retry-tcp: the server goes away well before the operator quits
+    let reconnect_at_us = if airports_valid && args.iter().any(|a| a == "--retry-tcp") && quit_at_us > 600_000 { Some(50_000 + rng.below(quit_at_us / 2)) } else { reconnect_at_us };
+    let airports_spoiled = if airports_valid && reconnect_at_us.is_some() && rng.chance(0.7) { Some((*rng.pick(&["delete", "garble", "truncate"])).to_string()) } else { None };
     // long sessions. The coverage sweep makes radar itself quadratic (it redraws every cell every
     // frame), so it only runs in the thorough tier; the compass sweep is cheap enough for quick.
     // (VERIF_C17_MODE=sweep|compass forces a mode for every faulted run: debugging aid)
@@ -404,15 +420,19 @@ pub fn generate(rng: &mut Rng, fault_free: bool) -> K17 {
         let args: Vec<String> = args.into_iter().filter(|a| !a.starts_with("--filter-time") && a != "--retry-tcp" && !a.starts_with("--max-range") && a != "--limit-parsing").collect();
         let mut args = args;
         args.retain(|a| a != "--disable-heading");
-        return K17 { args, cols, rows, refused_first: 0, lines: vec![], events, quit_at_us, quit_ctrl_c: false, proc_delay_us: vec![], reconnect_at_us: None, invalid_cli: None, rx: (35.0, -80.0), sweep, compass, ev_delay_us: vec![], gpsd: None, airports: None, rust_log: None };
+        return K17 { args, cols, rows, refused_first: 0, lines: vec![], events, quit_at_us, quit_ctrl_c: false, proc_delay_us: vec![], reconnect_at_us: None, invalid_cli: None, rx: (35.0, -80.0), sweep, compass, ev_delay_us: vec![], gpsd: None, airports: None, rust_log: None, connect_errnos: vec![], airports_spoiled: None };
     }
-    K17 { args, cols, rows, refused_first, lines, events, quit_at_us, quit_ctrl_c: rng.chance(0.3), proc_delay_us, reconnect_at_us, invalid_cli: None, rx: RX, sweep: 0, compass: 0, ev_delay_us, gpsd, airports, rust_log }
+    K17 { args, cols, rows, refused_first, lines, events, quit_at_us, quit_ctrl_c: rng.chance(0.3), proc_delay_us, reconnect_at_us, invalid_cli: None, rx: RX, sweep: 0, compass: 0, ev_delay_us, gpsd, airports, rust_log, connect_errnos, airports_spoiled }
 }
 
 pub fn compile(sc: &K17) -> KChild {
     let mut connects = vec![];
-    for _ in 0..sc.refused_first {
-        connects.push(KConnect { outcome: KOutcome::Refuse, segments: vec![], close_at_us: None, rst: false, eintr_reads: vec![] });
+    let failing = |i: usize| match sc.connect_errnos.get(i % sc.connect_errnos.len().max(1)).copied().unwrap_or(0) {
+        0 => KOutcome::Refuse,
+        e => KOutcome::Fail(e),
+    };
+    for i in 0..sc.refused_first {
+        connects.push(KConnect { outcome: failing(i as usize), segments: vec![], close_at_us: None, rst: false, eintr_reads: vec![] });
     }
     let seg = |t: u64, hex: &str| KSegment { at_us: t, hex: wire::hex(format!("*{hex};\n").as_bytes()) };
     if sc.sweep > 0 || sc.compass > 0 {
@@ -462,12 +482,12 @@ pub fn compile(sc: &K17) -> KChild {
         let mut events = sc.events.clone();
         events.sort_by_key(|e| e.at_us);
         events.push(KEvent { at_us: sc.quit_at_us.max(events.last().map(|e| e.at_us).unwrap_or(0)), ev: KEv::Key { code: "c:q".into(), ctrl: false, shift: false, alt: false } });
-        return KChild { rust_log: sc.rust_log.clone(), gpsd: None, ev_delay_us: vec![], connects, events, proc_delay_us: vec![], coalesce: vec![false], step_budget: 60_000 + 8 * (sc.sweep + sc.compass) as u64 };
+        return KChild { file_ops: vec![], rust_log: sc.rust_log.clone(), gpsd: None, ev_delay_us: vec![], connects, events, proc_delay_us: vec![], coalesce: vec![false], step_budget: 60_000 + 8 * (sc.sweep + sc.compass) as u64 };
     }
     match sc.reconnect_at_us.filter(|_| sc.args.iter().any(|a| a == "--retry-tcp")) {
         Some(rc) => {
             connects.push(KConnect { outcome: KOutcome::Accept, segments: sc.lines.iter().filter(|(t, _)| *t < rc).map(|(t, h)| seg(*t, h)).collect(), close_at_us: Some(rc), rst: false, eintr_reads: vec![] });
-            connects.push(KConnect { outcome: KOutcome::Refuse, segments: vec![], close_at_us: None, rst: false, eintr_reads: vec![] });
+            connects.push(KConnect { outcome: failing(sc.refused_first as usize), segments: vec![], close_at_us: None, rst: false, eintr_reads: vec![] });
             connects.push(KConnect { outcome: KOutcome::Accept, segments: sc.lines.iter().filter(|(t, _)| *t >= rc).map(|(t, h)| seg(*t - rc, h)).collect(), close_at_us: None, rst: false, eintr_reads: vec![] });
         }
         None => connects.push(KConnect { outcome: KOutcome::Accept, segments: sc.lines.iter().map(|(t, h)| seg(*t, h)).collect(), close_at_us: None, rst: false, eintr_reads: vec![] }),
@@ -477,6 +497,10 @@ pub fn compile(sc: &K17) -> KChild {
     let q = if sc.quit_ctrl_c { KEv::Key { code: "c:c".into(), ctrl: true, shift: false, alt: false } } else { KEv::Key { code: "c:q".into(), ctrl: false, shift: false, alt: false } };
     events.push(KEvent { at_us: sc.quit_at_us.max(events.last().map(|e| e.at_us).unwrap_or(0)), ev: q });
     // three seam calls per idle iteration of 60 ms
+    let file_ops: Vec<(usize, String, String)> = match (&sc.airports_spoiled, sc.reconnect_at_us.filter(|_| sc.args.iter().any(|a| a == "--retry-tcp"))) {
+        (Some(what), Some(_)) => vec![(sc.refused_first as usize + 1, "airports.csv".to_string(), what.clone())],
+        _ => vec![],
+    };
     let gpsd = sc.gpsd.as_ref().map(|(refuse, fixes)| {
         let l = |at_us: u64, v: Value, fix: Option<(f64, f64)>| KGpsdLine { at_us, text: v.to_string(), fix };
         let mut lines = vec![
@@ -493,7 +517,7 @@ pub fn compile(sc: &K17) -> KChild {
         }
         KGpsd { refuse: *refuse, lines }
     });
-    KChild { rust_log: sc.rust_log.clone(), gpsd, ev_delay_us: sc.ev_delay_us.clone(), connects, events, proc_delay_us: sc.proc_delay_us.clone(), coalesce: vec![], step_budget: 40_000 + sc.quit_at_us / 12_000 }
+    KChild { file_ops, rust_log: sc.rust_log.clone(), gpsd, ev_delay_us: sc.ev_delay_us.clone(), connects, events, proc_delay_us: sc.proc_delay_us.clone(), coalesce: vec![], step_budget: 40_000 + sc.quit_at_us / 12_000 }
 }
 
 pub fn is_quit_json(j: &str) -> bool {
@@ -626,6 +650,8 @@ pub fn execute(sc: &K17) -> Outcome {
             LogEv::Connect { what, .. } => {
                 if what.starts_with("accept") {
                     connected = true;
+                } else if what.starts_with("fail") {
+                    out.fault("connect_fails_otherwise_fired");
                 } else {
                     out.fault("connect_refused_fired");
                 }
@@ -646,6 +672,9 @@ pub fn execute(sc: &K17) -> Outcome {
     }
     if sc.rust_log.is_some() {
         out.fault("diagnostics_switched_on");
+    }
+    if p.run.seam_log.contains(" FILE ") {
+        out.fault("airports_file_spoiled_while_running");
     }
     if out.virtual_ns > 60_000_000_000 && sc.sweep == 0 && sc.compass == 0 {
         out.fault("session_left_alone_for_over_a_minute");
@@ -746,6 +775,12 @@ pub fn shrink(sc: &K17) -> Vec<K17> {
     }
     if sc.rust_log.is_some() {
         c.push(K17 { rust_log: None, ..sc.clone() });
+    }
+    if !sc.connect_errnos.is_empty() {
+        c.push(K17 { connect_errnos: vec![], ..sc.clone() });
+    }
+    if sc.airports_spoiled.is_some() {
+        c.push(K17 { airports_spoiled: None, ..sc.clone() });
     }
     if let Some((kind, tz)) = &sc.airports {
         c.push(K17 { airports: None, ..sc.clone() });
